@@ -68,7 +68,7 @@ func (t *Transaction) Confirm() error {
 func (t *Transaction) rollback() {
 	verifhook.Yield("timer.fired", t.transactionId)
 	ctx := context.Background()
-	t.transactionManager.Rollback(ctx, t.GetRollbackTransaction())
+	t.transactionManager.RollbackExpired(ctx, t)
 }
 
 func (t *Transaction) StartRollbackTimer() error {
